@@ -73,6 +73,8 @@ type Transport struct {
 	Ops       []Op
 	seq       int
 	AfterClos int // bytes written after Close (must stay 0)
+	StreamAtClose    int // len(Stream) when Close was first called (-1 = not closed)
+	UnflushedAtClose int // bytes written but not flushed at that moment
 
 	reads     []ReadItem
 	readMore  chan struct{}
@@ -87,7 +89,7 @@ type Transport struct {
 
 // NewTransport creates a transport gated by g (g may be nil).
 func NewTransport(g Gater) *Transport {
-	return &Transport{G: g, closedCh: make(chan struct{}), readMore: make(chan struct{}, 1)}
+	return &Transport{G: g, closedCh: make(chan struct{}), readMore: make(chan struct{}, 1), StreamAtClose: -1}
 }
 
 func (t *Transport) gate(point string) string {
@@ -194,6 +196,8 @@ func (t *Transport) Close() error {
 	t.Closes++
 	t.op("close", proc, 0, nil)
 	if !t.closed {
+		t.StreamAtClose = len(t.Stream)
+		t.UnflushedAtClose = len(t.Stream) - t.FlushedTo
 		t.closed = true
 		close(t.closedCh)
 	}
